@@ -325,3 +325,48 @@ func RealTimeGuard(d time.Duration, what string, c any) func() {
 	var once sync.Once
 	return func() { once.Do(func() { close(done) }) }
 }
+
+// Snapshot writes the current state of s to "$VF_STATS.snap.<pid>" (replacing the previous snapshot of this process).
+// Native fuzzing runs the target in worker processes that are killed when the budget ends, so nothing can be flushed
+// at exit; the driver merges the last snapshot of every process instead.
+func (s *Stats) Snapshot() {
+	path := os.Getenv("VF_STATS")
+	if path == "" {
+		return
+	}
+	s.mu.Lock()
+	fps := make([]string, 0, len(s.nontrivial))
+	for fp := range s.nontrivial {
+		fps = append(fps, strconv.FormatUint(fp, 36))
+	}
+	sort.Strings(fps)
+	cl := map[string]int64{}
+	for k, v := range s.classes {
+		cl[k] = v
+	}
+	rec := map[string]any{
+		"prop": s.Prop, "part": s.Part, "rule": s.Rule, "evaluations": s.evals, "classes": cl,
+		"nontrivial_fps": fps, "nontrivial_overflow": s.ntOverflow, "samples": s.samples,
+		"known": map[string]int64{}, "known_desc": map[string]string{}, "extra": map[string]any{},
+	}
+	if s.viol != nil {
+		rec["violation"] = s.viol
+	}
+	s.mu.Unlock()
+	b, err := json.Marshal(rec)
+	if err != nil {
+		return
+	}
+	dst := fmt.Sprintf("%s.snap.%d", path, os.Getpid())
+	tmp := dst + ".tmp"
+	if os.WriteFile(tmp, append(b, '\n'), 0o644) == nil {
+		_ = os.Rename(tmp, dst)
+	}
+}
+
+// Evals returns the number of cases recorded so far.
+func (s *Stats) Evals() int64 {
+	s.mu.Lock()
+	defer s.mu.Unlock()
+	return s.evals
+}
